@@ -826,3 +826,8 @@ B('C11', 'definitions accept schematic variables', 'server/items.py',
 B('C11', 'rhs variables compared by name', 'server/items.py',
   "            lhs_vars = set(args)\n            rhs_vars = set(self.prop.rhs.get_vars())", "            lhs_vars = set(v.name for v in args)\n            rhs_vars = set(v.name for v in self.prop.rhs.get_vars())", 'C11.D7', 'variables-with-types',
   more=[('", ".join(v.name for v in rhs_vars - lhs_vars)))', '", ".join(v for v in rhs_vars - lhs_vars)))')])
+B('C02', 'blocks walked without comparing identifier and position', THEORY,
+  "            if s.id.id != prefix + (i,):\n                raise CheckProofException(\"id %s does not match position in proof\" % s.id)\n", "", 'C02.P11', 'item-at-its-position')
+B('C02', 'block helper skips items that carry a sequent', THEORY,
+  "            self._check_proof_item(prf, s, rpt, no_gaps, compute_only, check_level)\n\n    def check_proof(self, prf, rpt=None",
+  "            if s.th is None:\n                self._check_proof_item(prf, s, rpt, no_gaps, compute_only, check_level)\n\n    def check_proof(self, prf, rpt=None", 'C02.P7', 'all-items')
